@@ -526,3 +526,46 @@ func (cl *cluster) enabled() []string {
 	sort.Strings(out)
 	return out
 }
+
+// conf renders what a model-node run and a real-node run of the same path must agree on: every observation made
+// along the path, the controller's state, and per node the REST-visible state.
+func (cl *cluster) conf() string {
+	v := cl.c.VerifView()
+	ren := map[string]string{}
+	rn := func(s string) string {
+		if s == "" {
+			return ""
+		}
+		if x, ok := ren[s]; ok {
+			return x
+		}
+		ren[s] = fmt.Sprintf("S%d", len(ren))
+		return ren[s]
+	}
+	var b strings.Builder
+	b.WriteString(strings.Join(cl.obs, "\n") + "\n")
+	for _, n := range cl.nodes {
+		nv := n.View()
+		if nv.State == "closed" {
+			continue
+		}
+		for i := len(nv.Chain) - 1; i >= 0; i-- {
+			rn(nv.Chain[i])
+		}
+	}
+	fmt.Fprintf(&b, "C ro=%v rwc=%d cp=%s fe=%v replicas=%v backends=%s\n", v.ReadOnly, v.RWReplicaCount, rn(v.Checkpoint), v.FrontendUp, v.Replicas, beStr(v))
+	for i, n := range cl.nodes {
+		nv := n.View()
+		fmt.Fprintf(&b, "N%d st=%s rev=%d reb=%v size=%d", i, nv.State, nv.Rev, nv.Rebuilding, nv.Size)
+		if nv.State != "closed" {
+			var ch []string
+			for _, c := range nv.Chain {
+				ch = append(ch, rn(c))
+			}
+			h := sha1.Sum([]byte(nv.Data))
+			fmt.Fprintf(&b, " mode=%s chain=%v cp=%s data=%x", nv.Mode, ch, rn(nv.Checkpoint), h[:6])
+		}
+		b.WriteString("\n")
+	}
+	return b.String()
+}
